@@ -96,6 +96,24 @@ def model_check(module: str, cfg: Optional[str] = None, workers: int = 16, timeo
         shutil.rmtree(wd, ignore_errors=True)
 
 
+def balanced(out: str, start: int) -> str:
+    """The printed TLA+ tuple that starts at out[start] ('<<' ... matching '>>'), possibly spread over several lines."""
+    depth = 0
+    i = start
+    while i < len(out):
+        if out.startswith('<<', i):
+            depth += 1
+            i += 2
+        elif out.startswith('>>', i):
+            depth -= 1
+            i += 2
+            if depth == 0:
+                return out[start:i]
+        else:
+            i += 1
+    raise TLCError('unbalanced tuple in TLC output')
+
+
 _RE_PRINT = re.compile(r'^<<"(VERDICT|INFO|EXPECT)", (.*)>>\s*$', re.M)
 
 
